@@ -18,9 +18,11 @@
    getpath prints are bound in namespaces=, names printable as XPath, no
    InsertNamespace for the default namespace -- checkable by script_okb):
    - doc_fmt_okb L, doc_fmt_okb R (XV.Compose; booleans): in every node slot the
-     tag (Clark name) and the attribute names contain no comma, double quote or
-     line-break character and no leading/trailing white space (raw_okb: they are
-     written verbatim); attribute values, texts and tails are strings of XML
+     tag and the attribute names contain no comma, double quote or line-break
+     character and no leading/trailing white space (raw_okb: they are written
+     verbatim), or are Clark names {uri}local whose namespace part is any string
+     without a line break -- commas and quotes included -- and whose local part is
+     printable ASCII without comma and quote (name_okb); attribute values, texts and tails are strings of XML
      characters (xml_charb: non-surrogate code points <= U+10FFFF; they are
      JSON-encoded, so commas, quotes and line breaks in them are fine);
    - pe_raw_ok pe: the prefixes lxml prints contain no comma, quote, line break;
@@ -143,3 +145,65 @@ Proof.
   vm_compute. repeat split; reflexivity.
 Qed.
 Print Assumptions C02_pipeline_example.
+
+(* Namespace names with commas (repair a8953ad, C02_clark_names).  L = <a xmlns:p="tag:example.org,2005:x"><p:b/></a>,
+   R = <a xmlns:p="tag:example.org,2005:x"><p:c p:k="1"/></a>: the tag and the attribute name, written verbatim as
+   {tag:example.org,2005:x}c and {tag:example.org,2005:x}k, satisfy doc_fmt_okb (name_okb: the namespace part of a Clark
+   name may hold commas), all hypotheses hold by computation, and diff | format | parse | patch computes to R. *)
+Example C02_pipeline_comma_example :
+  let U := [116%N;97%N;103%N;58%N;101%N;120%N;97%N;109%N;112%N;108%N;101%N;46%N;111%N;114%N;103%N;44%N;50%N;48%N;48%N;53%N;58%N;120%N] in
+  let L := mk_forest [(0, [1])]
+            [(0, Lab (TElem [97%N]) [] None None);
+             (1, Lab (TElem (clark U [98%N])) [] None None)] 2 in
+  let R := mk_forest [(0, [1])]
+            [(0, Lab (TElem [97%N]) [] None None);
+             (1, Lab (TElem (clark U [99%N])) [(clark U [107%N], [49%N])] None None)] 2 in
+  let leaf := fun a b : str => if str_eqb a b then 100 else
+              match a, b with x :: _, y :: _ => if N.eqb x y then 60 else 10 | _, _ => 10 end in
+  let comb := fun m c n : nat => if Nat.ltb 0 n && Nat.eqb c n then m else m * 70 / 100 in
+  let is_one := fun x => Nat.eqb x 100 in
+  let o := MOpts nat 50 [] false false [] in
+  let lns : nsmap := [(Some [112%N], U)] in
+  let pe : penv := fun u => if str_eqb u U then Some [112%N] else None in
+  let dm := diff_model nat Nat.ltb Nat.leb is_one 0 100 leaf comb o L R 0 0 lns lns in
+  Nat.leb (oF nat o) 0 = false /\ is_one 0 = false /\
+  wf_forest L 0 /\ wf_forest R 0 /\
+  ns_fmt_okb lns lns = true /\ doc_fmt_okb L = true /\ doc_fmt_okb R = true /\
+  (forall u p, pe u = Some p -> forallb raw_charb p = true) /\
+  (forall script W, dm = Some (script, W) -> script_ok pe 0 (nsmap_env lns) L script) /\
+  match dm with
+  | Some (script, _) =>
+      match render_script pe 0 L script with
+      | Some gs =>
+          match format tables gs with
+          | Ok text =>
+              script <> [] /\ length (splitlines text) = length script /\
+              match parse tables text with
+              | Ok gs' =>
+                  gs' = gs /\
+                  match patch actions_sig true 0 patcher_progs L lns gs' with
+                  | POk T' => tree_equivb (doc_tree T' 0) (doc_tree R 0) = true
+                  | _ => False
+                  end
+              | Err _ => False
+              end
+          | Err _ => False
+          end
+      | None => False
+      end
+  | None => False
+  end.
+Proof.
+  cbv zeta.
+  split; [reflexivity|]. split; [reflexivity|].
+  split; [apply wf_forestb_sound; vm_compute; reflexivity|].
+  split; [apply wf_forestb_sound; vm_compute; reflexivity|].
+  split; [vm_compute; reflexivity|]. split; [vm_compute; reflexivity|]. split; [vm_compute; reflexivity|].
+  split.
+  { intros u p. destruct (str_eqb u _); [|discriminate]. intros E. injection E as <-. reflexivity. }
+  split.
+  { intros script W E. pose proof (f_equal (option_map fst) E) as E'. vm_compute in E'.
+    injection E' as <-. apply script_okb_sound. vm_compute. reflexivity. }
+  vm_compute. repeat split; try reflexivity. discriminate.
+Qed.
+Print Assumptions C02_pipeline_comma_example.
